@@ -142,8 +142,9 @@ func canon(s []span) ([]span, error) {
 							return nil, err
 						}
 					}
-					if maxPlusOne.lessThan(next.min) {
-						// There is a gap; cannot merge.
+					if maxPlusOne.lessThan(next.min) || next.minOpen && maxPlusOne.equal(next.min) {
+						// There is a gap (of the one version next.min when it
+						// is an open bound); cannot merge.
 						break
 					}
 				} else {
